@@ -17,7 +17,7 @@ instance (e : Env) : Decidable (GrpcStreamEnv e) := by unfold GrpcStreamEnv; exa
 /-- actions of the proxy's goroutines and gRPC's reactions to them (everything but the peers,
     the operator and the clock) -/
 def Act.isInternal : Act → Bool
-  | .push _ _ | .sendFail _ | .iniCancel | .shutdown | .tick => false
+  | .push _ _ | .sendFail _ | .stall _ | .unstall _ | .iniCancel | .shutdown | .tick => false
   | _ => true
 
 /-- every internal action, in the priority order `settle` tries them -/
@@ -42,6 +42,23 @@ def settle : Nat → State → State
 
 /-- no internal action is enabled: every goroutine still alive is blocked -/
 def Quiescent (σ : State) : Prop := ∀ a, a.isInternal = true → step σ a = none
+
+/-- no peer is stalled: every `Send` returns (with success or an error) -/
+def Unstalled (σ : State) : Prop := σ.s.stalled = false ∧ σ.i.stalled = false
+
+instance (σ : State) : Decidable (Unstalled σ) := by unfold Unstalled; exact inferInstance
+
+/-- no `Send` can block: every stalled peer's stream is already done / broken / cancelled, so a `Send`
+    to it returns an error at once (weaker than `Unstalled`; e.g. after the initiator went away) -/
+def NoSendCanBlock (σ : State) : Prop :=
+  (σ.s.stalled = true → sendOk σ .s = false) ∧ (σ.i.stalled = true → sendOk σ .i = false)
+
+instance (σ : State) : Decidable (NoSendCanBlock σ) := by unfold NoSendCanBlock; exact inferInstance
+
+/-- the relay loop of direction `d` sits in a `Send` that does not return: it holds a message, the
+    receiving peer is not reading, and nothing has broken / ended / cancelled that peer's stream -/
+def blockedInSend (σ : State) (d : D) : Bool :=
+  (σ.dir d).stalled && sendOk σ d && (match (σ.dir d).loop with | .holding v => v.isData | _ => false)
 
 /-- is the relay loop still relaying -/
 def RPc.alive : RPc → Bool
